@@ -487,6 +487,33 @@ func (r *fidRun) checkState(to int) bool {
 	return good
 }
 
+// finalAccounting (C13, independent of the model): whatever went wrong before, after Stop every
+// entry object the file system handed to the session must have been released exactly once.
+func (r *fidRun) finalAccounting() {
+	if r.hung {
+		return
+	}
+	r.fs.StartProbe()
+	if !r.timed("stop", func() { r.sess.Stop(nil) }) {
+		return
+	}
+	r.fs.EndProbe()
+	for _, h := range r.fs.All {
+		if h.Placeholder {
+			continue
+		}
+		if h.Released() != 1 {
+			sig := "not-released-after-stop"
+			if h.Released() > 1 {
+				sig = "released-too-often"
+			}
+			r.viol("release", sig, fmt.Sprintf("after Stop, entry#%d (model h%d) has been released %d times (clunk %d, remove %d, consumed by create %d); every entry handed to the session must be released exactly once",
+				h.ID, h.MH, h.Released(), h.Clunks, h.Removes, h.Consumed))
+			return
+		}
+	}
+}
+
 // finish ends a history with Stop (stop may strike at any point) and checks that nothing stays bound.
 func (r *fidRun) finish(cur int) {
 	if r.hung || r.lts.States[cur].Stopped {
@@ -578,6 +605,8 @@ func Fid(args []string) {
 				}
 				if okAll {
 					r.finish(cur)
+				} else if len(r.hist) > 0 && r.hist[len(r.hist)-1].Op != "stop" {
+					r.finalAccounting()
 				}
 				mu.Lock()
 				steps += r.steps
